@@ -172,6 +172,40 @@ fn main() {
         Some("replay") => replay::cmd_replay(&args[1..]),
         Some("one") => cmd_one(&args[1..]),
         Some("determinism") => cmd_determinism(&args[1..]),
+        Some("probe-heavy-vote") => {
+            // directed probe (not a registered check): a gap slot closed by one heavy notar vote that
+            // crosses 60 % and 80 % at once
+            use model::{VK, VoteId};
+            let mut stakes = vec![7u64; 10];
+            stakes.push(30);
+            let mut h = poolworld::PoolHarness::new(&stakes, 0);
+            kernel::begin_run(kernel::Decisions::generate(1), false, 1_000_000);
+            let all: Vec<usize> = (0..11).collect();
+            h.add_block((1, 1), (0, 0));
+            for v in &all {
+                let _ = h.add_vote(VoteId { v: *v, kind: VK::Notar, slot: 1, tag: 1 });
+            }
+            h.add_block((2, 1), (1, 1));
+            // (the block of slot 3 is not registered: slot 2 stays an undecided gap)
+            for v in &all {
+                let _ = h.add_vote(VoteId { v: *v, kind: VK::Notar, slot: 3, tag: 1 });
+            }
+            for v in 0..9 {
+                let _ = h.add_vote(VoteId { v, kind: VK::Final, slot: 2, tag: 0 });
+            }
+            println!("before: finalized {} watermark {} retained {:?}", h.finalized_slot(), h.watermark(), h.pool.verif_retained_slots());
+            for v in 0..8 {
+                let r = h.add_vote(VoteId { v, kind: VK::Notar, slot: 2, tag: 1 });
+                println!("light notar {v}: {r:?}");
+            }
+            let r = h.add_vote(VoteId { v: 10, kind: VK::Notar, slot: 2, tag: 1 });
+            println!("heavy notar: {r:?}");
+            let out = h.drain();
+            println!("certs created: {:?}", out.certs.iter().map(poolworld::cert_key).collect::<Vec<_>>());
+            println!("after: finalized {} watermark {} retained {:?}", h.finalized_slot(), h.watermark(), h.pool.verif_retained_slots());
+            let _ = kernel::end_run();
+            0
+        }
         Some("selfcheck") => {
             println!("wire self-check ok");
             0
